@@ -6,11 +6,8 @@ Inductive case :=
             (an_consumes an_produces an_schemes an_ops : list bytes)   (* the real analyzer's Required* / OperationMethodPaths, sorted *)
             (err : option failure)                                      (* API.Validate() *)
             (routed : list (nat * bool))                                (* validated: per declared operation, does the real router hold its route under base path + template *)
-            (served : list (nat * bytes * nat)).                        (* per exercised operation: index, content type sent, outcome *)
-
-Definition failure_eqb (a b : failure) : bool :=
-  Nat.eqb (f_section a) (f_section b) && list_eqb bytes_eqb (f_unspecified a) (f_unspecified b) &&
-  list_eqb bytes_eqb (f_unregistered a) (f_unregistered b).
+            (served : list (request * result * result))                 (* validated, simple: a history of requests on ONE handler; per request its result there and on a fresh handler *)
+            (more : list (list reg * option failure * option failure)). (* later batches of registrations on the SAME API value, Validate() after each, and on a fresh value *)
 
 (* does the model's route table hold the route of operation i *)
 Definition expected_routed (a : api) (d : desc) (i : nat) : bool :=
@@ -19,23 +16,19 @@ Definition expected_routed (a : api) (d : desc) (i : nat) : bool :=
   | Some o => route_added a d o
   end.
 
-(* what the model expects of exercising operation i with a body of content type ct ([] = no body) *)
-Definition expected_outcome (a : api) (d : desc) (i : nat) (ct : bytes) : nat :=
-  match nth_error (g_ops d) i with
-  | None => 3
-  | Some o =>
-    if negb (route_added a d o) then 4 else
-    match ct with
-    | _ :: _ => if mem_bytes ct (a_consumers a) then
-                  match exercise a d o with Panicked PNoProducer _ => 2 | Panicked _ _ => 3 | Responded _ => 0 end
-                else 1
-    | [] => match exercise a d o with Panicked PNoProducer _ => 2 | Panicked _ _ => 3 | Responded _ => 0 end
-    end
+(* the implementation's result against the model's. For the two operations of a colliding pair (F-C19-2) the model does not
+   say which record the router keeps: the one with the unclean template never runs its own handler, the other is unspecified *)
+Definition result_agrees (d : desc) (rq : request) (model impl : result) : bool :=
+  match nth_error (g_ops d) (rq_op rq) with
+  | None => result_eqb impl model
+  | Some o => if route_collides d o
+              then own_template d o || negb (Nat.eqb (rs_outcome impl) 0)
+              else result_eqb impl model
   end.
 
 Definition check_case (c : case) : N :=
   match c with
-  | CValidate regs d anc anp ans ano err routed served =>
+  | CValidate regs d anc anp ans ano err routed served more =>
     let a := build_api regs in
     let m := validate a d in
     let analyzer_ok :=
@@ -49,13 +42,19 @@ Definition check_case (c : case) : N :=
                        | None => all_routed (length (g_ops d)) routed
                        | Some _ => true
                        end in
-    let served_corr := forallb (fun s => let '(i, ct, k) := s in Nat.eqb k (expected_outcome a d i ct)) served in
-    (* a simple validated description: every declared operation was sent a request, and the handler ran *)
+    (* the model keeps nothing between requests: every result, on the shared and on the fresh handler, is the single-request answer *)
+    let served_corr := forallb (fun e => let '(rq, shared, fresh) := e in
+                                         result_agrees d rq (serve_one a d rq) shared && result_agrees d rq (serve_one a d rq) fresh) served in
+    (* a simple validated description: every declared operation was sent well-formed requests; each request fared on the
+       shared handler as on a fresh one, and every well-formed one had its handler run and its response produced *)
     let served_prop := negb (simple_desc d) ||
                        match err with
-                       | None => list_eqb Nat.eqb (map (fun s => fst (fst s)) served) (seq 0 (length (g_ops d)))
+                       | None => covers_ops a d served
                        | Some _ => true
-                       end && forallb (fun s => served_ok (snd s)) served in
-    verdict (analyzer_ok && opt_eqb failure_eqb m err && routed_corr && served_corr)
-            (validate_prop a d err && routed_prop && served_prop)
+                       end && forallb (entry_ok a d) served in
+    let more_corr :=
+      list_eqb (opt_eqb failure_eqb) (map (fun e => snd (fst e)) more) (validate_history a d (map (fun e => fst (fst e)) more)) &&
+      list_eqb (opt_eqb failure_eqb) (map snd more) (validate_history a d (map (fun e => fst (fst e)) more)) in
+    verdict (analyzer_ok && opt_eqb failure_eqb m err && routed_corr && served_corr && more_corr)
+            (validate_prop a d err && routed_prop && served_prop && history_ok a d more)
   end.
